@@ -12,6 +12,8 @@ import vxlib
 # (unit, file, regex, replacement, what it breaks)
 MUTATIONS = {
     'C15': [
+        ('serverconfig', 'tonic/src/transport/channel/endpoint.rs', r'self\.tls\.clone\(\),\n        \)', 'None,\n        )', 'the connector never gets the TLS configuration of the endpoint'),
+        ('serverconfig', 'tonic/src/transport/server/mod.rs', r'tls: Some\(tls_config\.tls_acceptor\(\)\.map_err\(Error::from_source\)\?\),', 'tls: tls_config.tls_acceptor().ok(),', 'a TLS configuration that yields no acceptor gives a server without TLS instead of an error'),
         ('tls', 'tonic/src/request.rs', r'\.and_then\(\|i\| i\.peer_certs\(\)\)', '.and_then(|_i| None)', 'Request::peer_certs never finds the certificates'),
         ('tls', 'tonic/src/transport/channel/service/connector.rs', r'let is_https = uri\.scheme_str\(\) == Some\("https"\);', 'let is_https = tls.is_some() && uri.scheme_str() == Some("https");', 'TLS is used only when a TLS configuration happens to be present'),
         ('tls', 'tonic/src/transport/channel/service/tls.rs', r'if !\(alpn_protocol == Some\(ALPN_H2\) \|\| self\.assume_http2\) \{', 'if !(alpn_protocol == Some(ALPN_H2) || !self.assume_http2) {', 'the http2 opt-out is read the wrong way round'),
